@@ -112,9 +112,20 @@ func genC02(g *gen) {
 	}
 	// rank 1: complete space, all sources
 	for d := 1; d <= maxd+1; d++ {
-		for _, a := range fullAxisSpace(d) {
+		for k, a := range fullAxisSpace(d) {
 			for _, ord := range srcs {
 				g.emit(fmt.Sprintf("new i16 %d %s", d, ord), "slice $0 "+a, "dump $1")
+			}
+			// the same arguments through the library's slice constructor S(...): its defaults (end = start+1, step 0
+			// for a one-element range, 1 otherwise) and its treatment of an explicit zero or negative step
+			if a != "n" {
+				g.emit(fmt.Sprintf("new i16 %d %s", d, srcs[k%3]), "slice $0 S"+a, "dump $1")
+				if f := strings.Split(a, ":"); len(f) == 3 {
+					g.emit(fmt.Sprintf("new i16 %d C", d), fmt.Sprintf("slice $0 S%s:%s", f[0], f[1]), "dump $1")
+					if f[2] == "0" {
+						g.emit(fmt.Sprintf("new i16 %d,%d C", d, d), fmt.Sprintf("slice $0 n,S%s:%s:-1", f[0], f[1]), "dump $1", fmt.Sprintf("slice $0 S%s,S%s", f[0], a), "dump $2")
+					}
+				}
 			}
 		}
 	}
@@ -713,6 +724,21 @@ func init() {
 	generators["C02"] = genC02
 	generators["C03"] = genC03
 	generators["C04"] = genC04
-	generators["C05"] = func(g *gen) { genC05(g); genC05mult(g) }
+	generators["C05"] = func(g *gen) {
+		genC05(g)
+		genC05mult(g)
+		// masked stepping (NextValid / NextInvalid / NextValidity with their skip counts, every mask over few
+		// elements): the programs of the mask generator that run a masked iterator
+		if f, ok := generators["C15"]; ok {
+			for _, line := range captureGen(g, f) {
+				j := strings.Index(line, " ; ")
+				if j < 0 || !strings.Contains(line, "miter ") {
+					continue
+				}
+				g.n++
+				fmt.Fprintf(g.w, "%s%d%s\n", g.pfx, g.n, line[j:])
+			}
+		}
+	}
 	generators["C13"] = genC13
 }
